@@ -169,10 +169,10 @@ theorem recsD_runL (hashOf : List β → H) (g : List (LBackupF β F)) (mask : L
     recsD hashOf (runL hashOf g mask name es fpf) =
       records (runBackup (hashOf []) (view (g.map (recsD hashOf)) mask) (eventsOf hashOf fpf es)) := by
   have hnd : ((eventsOf hashOf fpf es).map (·.path)).Nodup := by
-    have := events_paths hashOf fpf (⟨name, es, fun _ => true⟩ : LBackup β)
+    have := events_paths hashOf fpf (⟨name, es, fun _ => true, fun _ => []⟩ : LBackup β)
     simp only at this
     rw [this]
-    exact recs_paths_nodup hashOf ⟨name, es, fun _ => true⟩ hs.1
+    exact recs_paths_nodup hashOf ⟨name, es, fun _ => true, fun _ => []⟩ hs.1
   obtain ⟨_, h2⟩ := recs_of_run hashOf (loadLast (view (g.map (recsD hashOf)) mask)) fpf es
     (loadKnown (view (g.map (recsD hashOf)) mask)) hnd
     (fun p m d hin l r hl hr hfp => (hs.2 p m d hin l r hl hr hfp).1)
